@@ -256,3 +256,25 @@ def m1_replay(prop, path, oracle_key):
     if bad:
         print("VIOLATION property=%s replay=%s" % (prop, path))
     return bad
+
+
+def planner_dependency(chk):
+    """Used by the checks of properties that depend on the planner (C02-C05, C09, C13): the M1 correspondences K-apply and
+    K-diff must hold on the shared generated histories; a mismatch is a broken correspondence of that property too."""
+    res = run_m1(chk.tier, chk.seed)
+    if "build_error" in res or "coq_error" in res:
+        chk.violation(vflib.write_replay(chk.prop, "correspondence:m1-build", {"log": (res.get("build_error") or res.get("coq_error"))[-1500:]}), True)
+        return
+    rel = {i: [s for s in subs if s in (3, 4)] for i, subs in res["mismatches"].items()}
+    rel = {i: s for i, s in rel.items() if s}
+    corr = chk.cov.setdefault("correspondences", {})
+    if isinstance(corr, dict):
+        corr["K-apply(m1, planner dependency)"] = {"cases": len(res["rows"]), "mismatches": sum(1 for s in rel.values() if 3 in s)}
+        corr["K-diff(m1, planner dependency)"] = {"cases": len(res["rows"]), "mismatches": sum(1 for s in rel.values() if 4 in s)}
+    if rel or res["errors"]:
+        first = sorted(rel.items(), key=lambda kv: int(kv[0]))[:1]
+        payload = {"broken": sorted({SUBCHECK[x] for v in rel.values() for x in v}), "shard_errors": res["errors"][:2],
+                   "note": "the planner (diff_schemas / apply_action) no longer agrees with its Coq model; this property quantifies over planner-produced plans"}
+        if first:
+            payload["first_differing_case"] = input_of(res["rows"][int(first[0][0])])
+        chk.violation(vflib.write_replay(chk.prop, "correspondence:planner(m1)", payload), True)
